@@ -293,6 +293,45 @@ def run(run):
     except Unsupported as e:
         ob.inconclusive(str(e))
 
+    ob = run.ob("crlf-equals-lf", "E2", "one lexer step on '\\r' followed by '\\n' leaves exactly the state and (empty) token "
+                "list that the step on '\\n' leaves, having consumed two characters; '\\r' followed by anything else is an error",
+                ["into_tokens ('\\r' and '\\n' arms)", "State::token(NL)"])
+    try:
+        import lexstep
+        sr = lexstep.StepRun(run, mir)
+        exl, Sl = sr.ex, sr.S
+        nl_paths = [p for p in sr.ends if p.kind == "return"]
+        A_nl, A_cr, cl = None, [], []
+        for p in nl_paths:
+            r, _m, _dt, _ = e2.solve(exl, [sr.c == 10] + p.cond, 5000)
+            if r == z3.sat and isinstance(p.ret, Agg) and p.ret.variant == "Ok":
+                A_nl = (p, Sl.after(p))
+        if A_nl is None:
+            raise Unsupported("newline arm not found")
+        n_cr = 0
+        for p in nl_paths:
+            r, _m, _dt, _ = e2.solve(exl, [sr.c == 13] + p.cond, 5000)
+            if r != z3.sat:
+                continue
+            n_cr += 1
+            c = z3.And(sr.c == 13, conj(p.cond))
+            nxt_is_nl = z3.And(z3.UGE(sr.stream.n, 1), sr.stream.ch(z3.BitVecVal(0, 64)) == 10)
+            if isinstance(p.ret, Agg) and p.ret.variant == "Ok":
+                a, b = Sl.after(p), A_nl[1]
+                same = conj([a["cur_indent"] == b["cur_indent"], a["line_indent"] == b["line_indent"],
+                             a["token_this_line"] == b["token_this_line"], a["pos"].fields[0] == b["pos"].fields[0],
+                             a["pos"].fields[1] == b["pos"].fields[1],
+                             z3.BoolVal(isinstance(p.ret.fields[0], Seq) and not p.ret.fields[0].parts),
+                             z3.BoolVal(len(a["newlines"].parts) == len(b["newlines"].parts))])
+                cl.append(z3.Implies(c, z3.And(nxt_is_nl, same, sr._consumed(p.state) == 2)))
+            else:
+                cl.append(z3.Implies(c, z3.Not(nxt_is_nl)))
+        if n_cr < 2:
+            raise Unsupported("carriage-return arm: expected an Ok and an Err path")
+        e2.prove_each(run, ob, exl, [Sl.inv()], cl, C18.names_of(Sl), replay_family(rp, "crlf", {"crlf"}))
+    except Unsupported as e:
+        ob.inconclusive(str(e))
+
     if all(o.status == "discharged" for o in run.obs):
         n, bad = trivia_family(rp)
         n2, bad2 = comment_family(rp)
